@@ -127,6 +127,8 @@ def run_e2e(ctx, n):
             files['p%d.json' % i] = json.dumps(parts[i])
             files['q%d/params.json' % i] = json.dumps(parts[i])      # the same base name in different directories
         files['nothing/README'] = 'no parameter file here\n'          # an -i argument that contributes no file
+        files['data_copy.json'] = files['data.json']                  # a second data file: every data file gets the parameters
+        files['empty.json'] = '{}'                                    # a data file that is an empty map: everything comes from -i
         e2e.write_files(d, files)
         sc = {'k': k, 'dir': d, 'doc': doc, 'parts': parts, 'overlap': overlap, 'dup_key': dup_key, 'rules': files['r.guard'], 'nparts': nparts}
         scen.append(sc)
@@ -147,6 +149,18 @@ def run_e2e(ctx, n):
                     args += ['-i', 'q%d/params.json' % i]
                 jobs.append({'args': args, 'cwd': d})
                 meta.append((k, mode, ('same-base-name',) + od))
+                if od == orders[0]:
+                    # several data files in one run (each must be merged with the parameters), and an empty data document
+                    for lab, dlist in (('two-data-files', ['data.json', 'data_copy.json']), ('two-data-files-rev', ['data_copy.json', 'data.json'])):
+                        args = ['validate', '-r', 'r.guard'] + flags
+                        for x in dlist:
+                            args += ['-d', x]
+                        for i in od:
+                            args += ['-i', 'p%d.json' % i]
+                        jobs.append({'args': args, 'cwd': d})
+                        meta.append((k, mode, (lab,) + od))
+                    jobs.append({'args': ['validate', '-r', 'r.guard', '-d', 'empty.json', '-i', 'whole.json'] + flags, 'cwd': d})
+                    meta.append((k, mode, ('empty-data-all-from-parameters',)))
                 if od == orders[0] or len(scen) % 3 == 0:
                     for pos in range(len(od) + 1):
                         names = ['p%d.json' % i for i in od]
@@ -178,7 +192,7 @@ def run_e2e(ctx, n):
                 if not isinstance(code, int) or code < 0 or code == 101:
                     ctx.failing('validate -i (%s, order %s) crashed: %s' % (mode, key[1], code), dict(info, mode=mode, order=key[1], stderr=se[-400:].decode('utf-8', 'replace')), found=True)
                     continue
-                if sc['overlap']:
+                if sc['overlap'] and not (key[1] and key[1][0] == 'empty-data-all-from-parameters'):
                     if code in (0, 19):
                         ctx.failing('top-level key %r is defined by two sources but validate -i (%s, order %s) exits %s instead of failing with an error'
                                     % (sc['dup_key'], mode, key[1], code), dict(info, mode=mode, order=key[1], dup=sc['dup_key']), found=True)
@@ -198,6 +212,11 @@ def run_e2e(ctx, n):
                     st = structured_statuses(so)
                     if st is None or refst is None:
                         ctx.failing('structured output is not JSON', dict(info, mode=mode), found=True)
+                    elif key[1] and isinstance(key[1][0], str) and key[1][0].startswith('two-data-files'):
+                        half = len(st) // 2
+                        if len(st) != 2 * len(refst) or any([x[1] for x in part] != [x[1] for x in refst] for part in (st[:half], st[half:])):
+                            ctx.failing('validate -i with two data files reports %s, each file pre-merged gives %s' % (st, refst),
+                                        dict(info, mode=mode, order=key[1]), found=(ust == refst))
                     elif [x[1] for x in st] != [x[1] for x in refst] or [x[0] for x in st] != [x[0] for x in refst]:
                         ctx.failing('validate -i (order %s) reports %s, the pre-merged document %s' % (key[1], st, refst),
                                     dict(info, mode=mode, order=key[1]), found=(ust == refst))
